@@ -7,8 +7,11 @@ import time
 from . import common
 
 VERIF = common.VERIF
-EVID_DIR = os.path.join(VERIF, "evidence")
-REPLAY_DIR = os.path.join(VERIF, "replays")
+# evidence and replay files describe /repo itself; a run against another source tree (PYVSC_SRC, used to try the
+# checks on seeded changes) writes them to a scratch directory instead
+OUT = os.environ.get("VERIF_OUT") or ("/tmp/verif_out_other_tree" if os.environ.get("PYVSC_SRC") else VERIF)
+EVID_DIR = os.path.join(OUT, "evidence")
+REPLAY_DIR = os.path.join(OUT, "replays")
 KNOWN_FILE = os.path.join(VERIF, "known_findings.json")
 
 
